@@ -229,7 +229,12 @@ class OrderBookSetup(Contract):
             for k in range(T - 1):
                 if tps[k] < v <= tps[k + 1]:
                     return pts[k + 1] if v == tps[k + 1] else pts[k] + (pts[k + 1] - pts[k]) / 2
-            return pts[T - 1] + (pts[T] - pts[T - 1]) / 2 if v > tps[T - 1] else pts[T - 1]
+            # beyond the last grid point: inside the last step, exactly on the grid end (one model step = 10 instants
+            # further), or after the end -- the function only compares with grid points, so all three are the same
+            # abstract situation; the real-time twin exercises them separately
+            if v < tps[T - 1] + 10:
+                return pts[T - 1] + (pts[T] - pts[T - 1]) / 2
+            return pts[T] if v == tps[T - 1] + 10 else pts[T] + pd.Timedelta(1, 'h') * (v - tps[T - 1] - 10)
         starts = [real_time(int(v)) for v in P['o_start']]
         ends = [real_time(int(v)) for v in P['o_end']]
         orders = {'start': np.array(starts, dtype=object), 'end': np.array(ends, dtype=object),
